@@ -91,10 +91,40 @@ func isoFromTemplate() *document.Document {
 	return nil
 }
 
+var (
+	isoMdOnce sync.Once
+	isoMdConv *markdown.Converter
+)
+
+// isoFromMarkdown converts a Markdown text with the process-wide converter; every document of a behaviour asks for
+// its own options (explicitly, on every call), so what a document looks like must not depend on the options an
+// earlier conversion of the same converter was given.
+func isoFromMarkdown(name string) *document.Document {
+	isoMdOnce.Do(func() { isoMdConv = markdown.NewConverter(markdown.DefaultOptions()) })
+	o := markdown.DefaultOptions()
+	switch name {
+	case "d1":
+		o.GenerateTOC, o.TOCMaxLevel = true, 2
+	case "d2":
+		o.EnableTables, o.EnableTaskList, o.EnableMath = false, false, false
+	default:
+		o.EnableTaskList, o.GenerateTOC, o.TOCMaxLevel = false, true, 1
+	}
+	md := "# H " + name + "\n\ntext of " + name + "\n\n| a | b |\n|---|---|\n| 1 | 2 |\n\n- [x] done\n- [ ] open\n\n## Sub\n\n$x^2$\n"
+	d, err := isoMdConv.ConvertString(md, o)
+	if err != nil || d == nil {
+		fmt.Fprintln(os.Stderr, "iso: cannot convert the Markdown start document:", err)
+		os.Exit(2)
+	}
+	return d
+}
+
 func isoNewDoc(name string) *isoDoc {
 	d := &isoDoc{name: name, aux: "none", savedProj: []map[string]interface{}{}}
 	if isoOrigin == "tmpl" {
 		d.doc = isoFromTemplate()
+	} else if isoOrigin == "md" {
+		d.doc = isoFromMarkdown(name)
 	} else {
 		d.doc = document.New()
 	}
@@ -104,7 +134,7 @@ func isoNewDoc(name string) *isoDoc {
 type isoExtra struct {
 	Mode   string `json:"mode"`
 	Rounds int    `json:"rounds"`
-	Origin string `json:"origin"` // "" | "tmpl": how the documents of this behaviour come into being
+	Origin string `json:"origin"` // "" | "tmpl" | "md": how the documents of this behaviour come into being
 }
 
 func isoExtraOf(c Case) isoExtra {
